@@ -331,7 +331,7 @@ func (cp *campaign) run() []Outcome {
 			if cp.Probe {
 				job.Req.Probe = probeCodes(c.G)
 			}
-			if cp.Layout && i%2 == 1 {
+			if cp.Layout && (i%2 == 1 || cp.Prop == "C16") {
 				job.LayoutSeed = r.Int63()
 			}
 			c.Job = job
